@@ -84,6 +84,47 @@ def same(m, r):
     return False
 
 
+# stock datatypes whose Python source is translated to Lean on every run (harness/zcv/pytrans.py -> Gen/CodeDatatypes.lean)
+CODE_DTS = ["boolean", "integer", "null", "string-list", "port-number", "byte-size", "time-interval", "identifier", "dotted-name",
+            "dotted-suffix", "basic-key", "inet-address", "inet-binding-address", "inet-connection-address", "socket-address",
+            "socket-binding-address", "socket-connection-address"]
+
+
+def _code_stream(ctx, D, reg, code_inputs):
+    """real function vs GENERATED code (the translation of its Python source, run by the second driver zcdrv2) on the
+    enumerations built above.  The equality 'generated code = model' is a theorem (Lemmas/CodeEqDatatypes.lean); what this
+    stream validates is the translator and the Python primitives of ZCV/Py.lean, i.e. the trusted part of that chain."""
+    if not core.ensure_driver2(ctx.tie):
+        ctx.notes.append("zcdrv2 (generated code) could not be built: the code-translation tie is broken; other streams unaffected")
+        ctx.cov["generated_code_stream"] = "driver unavailable"
+        return
+    n = 0
+    for dt in CODE_DTS:
+        inputs = code_inputs.get(dt)
+        if not inputs:
+            continue
+        fn = reg.get(dt)
+        ans = core.driver_batch([[Atom("code"), dt, s] for s in inputs], exe=core.DRIVER2)
+        for s, a in zip(inputs, ans):
+            r = impl_conv(fn, s)
+            n += 1
+            if r[0] == "exc":
+                continue            # reported by the main stream
+            if not same(a, r):
+                ctx.disagree("generated-code:" + dt, s, [r[0], repr(r[1])], a)
+    # the pattern step of ipaddr-or-hostname (IpaddrOrHostname.__call__ itself calls inet_pton and is not translated)
+    obj = D.stock_datatypes["ipaddr-or-hostname"]
+    inputs = code_inputs.get("ipaddr-or-hostname", [])
+    ans = core.driver_batch([[Atom("code"), "ipaddr-or-hostname-rx", s] for s in inputs], exe=core.DRIVER2)
+    for s, a in zip(inputs, ans):
+        r = impl_conv(lambda v: D.RegularExpressionConversion.__call__(obj, v), s)
+        n += 1
+        if r[0] != "exc" and not same(a, r):
+            ctx.disagree("generated-code:ipaddr-or-hostname-rx", s, [r[0], repr(r[1])], a)
+    ctx.evaluations += n
+    ctx.cov["generated_code_stream"] = {"datatypes": CODE_DTS + ["ipaddr-or-hostname-rx"], "evaluations": n}
+
+
 def run(ctx):
     import ZConfig.datatypes as D
     obligations, discharged, names = core.standard_prelude(ctx, ["ZCV.Props.C09"])
@@ -94,6 +135,7 @@ def run(ctx):
     not_modelled = [n for n in stock if n not in ALPHABETS and n != "boolean"]
     ctx.cov["host_dependent_or_unmodelled"] = not_modelled
     total_reqs = 0
+    code_inputs = {}
     for dt in [n for n in stock if n in ALPHABETS]:
         fn = reg.get(dt)
         alpha = ALPHABETS[dt]
@@ -111,6 +153,7 @@ def run(ctx):
         if dt in ("boolean", "byte-size", "time-interval", "inet-address", "inet-binding-address", "inet-connection-address",
                   "socket-address", "socket-binding-address", "socket-connection-address"):
             inputs = [s for s in inputs if "İ" not in s and "Σ" not in s]
+        code_inputs[dt] = inputs
         ans = core.driver_batch([[Atom("conv"), dt, s] for s in inputs]) if ctx.driver_ok else [None] * len(inputs)
         total_reqs += len(inputs)
         nviol = 0
@@ -145,6 +188,7 @@ def run(ctx):
                     ctx.violate("%s is not idempotent on %r: %r then %r" % (dt, s, r[1], r2), {"datatype": dt, "input": s},
                                 signature="C09:%s:idempotence" % dt)
         ctx.sample({"datatype": dt, "input": inputs[len(inputs) // 2], "impl": repr(impl_conv(fn, inputs[len(inputs) // 2]))})
+    _code_stream(ctx, D, reg, code_inputs)
     # timedelta: model (ZCV/Model/Timedelta.lean) vs the real function.  The model decides the loop over the parts (which
     # unit receives which float literal, ValueError for a bad amount, TypeError for an unknown unit); what
     # datetime.timedelta then does with the numbers (NaN, infinity, > 999999999 days -> ValueError) is outside it.
